@@ -636,7 +636,10 @@ func c19Run(repo, fitgen, dir string, cfg c19Config) (string, c19Info) {
 	// only the file name says which SDK release this is
 	zipDir := filepath.Join(dir, "fit-tools-1.2 (copy 3.14)")
 	os.MkdirAll(zipDir, 0o755)
-	zipPath := filepath.Join(zipDir, "FitSDKRelease_"+cfg.version+".zip")
+	// the release archive under the names it has in the wild: with and without the patch level,
+	// with what a browser or a packager appends after the version
+	zipName := []string{"FitSDKRelease_%s.zip", "FitSDKRelease_%s.00.zip", "FitSDKRelease_%s.00 (1).zip", "FitSDKRelease_%s.00_myproduct.zip", "FitSDKRelease_%s.00-edited.zip"}[(cfg.variant+len(cfg.version))%5]
+	zipPath := filepath.Join(zipDir, fmt.Sprintf(zipName, cfg.version))
 	{
 		var zb bytes.Buffer
 		zw := zip.NewWriter(&zb)
@@ -671,8 +674,11 @@ func c19Run(repo, fitgen, dir string, cfg c19Config) (string, c19Info) {
 		out := filepath.Join(dir, fmt.Sprintf("out%d", run))
 		os.MkdirAll(out, 0o755)
 		var cmd *exec.Cmd
-		if run < 2 {
+		if run == 0 {
 			cmd = exec.Command(fitgen, "-sdk", cfg.version, xlsxPath, out)
+		} else if run == 1 {
+			// with the command's debugging output on: what is logged is no part of what is written
+			cmd = exec.Command(fitgen, "-verbose", "-sdk", cfg.version, xlsxPath, out)
 		} else if run == 2 {
 			// relative paths, resolved against the working directory
 			rz, _ := filepath.Rel(dir, zipPath)
@@ -684,7 +690,11 @@ func c19Run(repo, fitgen, dir string, cfg c19Config) (string, c19Info) {
 			if zb, err := os.ReadFile(zipPath); err == nil {
 				os.WriteFile(renamed, zb, 0o644)
 			}
-			cmd = exec.Command(fitgen, "-sdk", cfg.version, renamed, out)
+			sdkArg := cfg.version
+			if cfg.variant%2 == 1 {
+				sdkArg += ".00-rc1" // the release as its full name gives it; major and minor are what counts
+			}
+			cmd = exec.Command(fitgen, "-sdk", sdkArg, renamed, out)
 		}
 		cmd.Dir = dir
 		// the four runs differ in what must not matter: run 1 regenerates in place (the output
